@@ -181,7 +181,9 @@ def run(replay=None):
                                     ops_un=["OP_SQUARE", "OP_NEG", "OP_ABS", "OP_RECIP"],
                                     ops_bin=["OP_ADD", "OP_MUL", "OP_MIN", "OP_MAX", "OP_SUB", "OP_DIV", "OP_COMPARE", "OP_NANFILL"])
         else:
-            p = exprlib.gen_program(ck.rng, f"x{j}", ck.rng.randint(4, 30), safe=False)
+            # a third of these with several free variables (the updateVars stage of ivcheck needs them to matter)
+            p = exprlib.gen_program(ck.rng, f"x{j}", ck.rng.randint(4, 30), safe=False,
+                                    var_p=(0.25 if ck.rng.random() < 0.33 else 0.08))
         p.exact = exact
         p.q = []
         for _ in range(4):
